@@ -143,6 +143,23 @@ def fam_named_fields(quick):
                 tb = "Gp<St>"
             td = TypeDef("X", "struct", "named", [mk_field("first", ta, a), mk_field("second", tb, b)])
             out.append(one({"family": "named-field-pair", "attrs": sorted({a[0], b[0]})}, td))
+    # thorough: all ordered triples of attributes on three fields (3-way interactions)
+    if not quick:
+        for a in opts:
+            for b in opts:
+                for c in opts:
+                    labels = [a[0], b[0], c[0]]
+                    if labels.count("flatten") > 1 and len(set(labels)) < 3 and labels.count("flatten") == 3:
+                        continue
+                    ta, tb, tc = REP_TYPE[a[0]], REP_TYPE[b[0]], REP_TYPE[c[0]]
+                    # flattened types must not share property names
+                    fl = [i for i, l in enumerate(labels) if l == "flatten"]
+                    tys = [ta, tb, tc]
+                    alt = ["St", "Gp<i32>", "Ei"]
+                    for n, i in enumerate(fl):
+                        tys[i] = alt[n]
+                    td = TypeDef("X", "struct", "named", [mk_field("first", tys[0], a), mk_field("second", tys[1], b), mk_field("third", tys[2], c)])
+                    out.append(one({"family": "named-field-triple", "attrs": sorted(set(labels))}, td))
     # flatten of enums in every representation, alone and with siblings
     for ty in ("En", "Ei", "Ea", "Eu", "St", "Gp<St>"):
         for sib in (0, 1, 2):
@@ -272,7 +289,7 @@ def fam_enums(quick):
             if allowed(rp, s):
                 out.append(one({"family": "enum-single", "repr": rp, "shape": s}, TypeDef("E", "enum", variants=[shapes[s]("Only")], attrs=list(rattr))))
         # two variants: position effects
-        ss = ["unit", "newtype", "struct2", "named0", "tuple2"]
+        ss = ["unit", "newtype", "struct2", "named0", "tuple2"] if quick else list(shapes)
         for a in ss:
             for b in ss:
                 if allowed(rp, a) and allowed(rp, b) and not (quick and a == b):
